@@ -42,7 +42,7 @@ def main():
         if not only and name in done:
             continue
         patch = f'{V}/sensitivity/{name}.diff'
-        r = {'name': name, 'expected_checks': m['expected_checks']}
+        r = {'name': name, 'what': m.get('what', name), 'expected_checks': m['expected_checks'], 'must_detect': m.get('must_detect', m['expected_checks']), 'must_stay_silent': m.get('must_stay_silent', [])}
         sh('git checkout -- .', cwd=WT)
         a = sh(f'git apply {patch}', cwd=WT)
         if a.returncode != 0:
